@@ -131,11 +131,11 @@ func c08Hit(prefix string) int64 {
 	return n
 }
 
-func c08Run(ctx context.Context, w *vWorld, account *vReplica, mat *c08Material, steps []c08Step, closeEarly bool) (*c08Outcome, error) {
+func c08Run(ctx context.Context, w *vWorld, account *vReplica, mat *c08Material, steps []c08Step, closeEarly bool, window int) (*c08Outcome, error) {
 	out := &c08Outcome{delivered: map[string]int{}, senderOf: map[string]string{}, parked: map[int]int{}}
 	verifsched.SetRole("driver")
 	defer verifsched.ClearRole()
-	r := w.newReplica("R", account)
+	r := w.newReplicaWindow("R", account, window)
 	gc, err := r.open(mat.g)
 	if err != nil {
 		return nil, err
@@ -332,7 +332,7 @@ func TestVerifC08(t *testing.T) {
 		"(event task, processing loop, metadata handler) and the driver, and under seeded jitter; quiescence = all arrivals queued, all metadata handled, processing loop parked (from counters and goroutine states); " +
 		"oracle: delivered == arrived and decryptable, exactly once, right payload and sender; nothing decryptable parked; queue empty. distinct = (delivery plan, schedule plan realised)"
 	rep.Assume("pair forcing at the instrumented points plus jitter, not all interleavings")
-	rep.Assume("per-sender message counts stay below the key window so that window effects (C02) are not conflated")
+	rep.Assume("per-sender message counts stay below the key window except in the two backlog scenarios, where the receiver has a window of 3 and a 9-message backlog arrives as one batch: everything must still come out once the older messages have opened")
 	ctx := context.Background()
 	w := newVWorld(t)
 	account := w.newReplica("A", nil)
@@ -352,34 +352,39 @@ func TestVerifC08(t *testing.T) {
 		senders, before, after int
 		steps                  func(mat *c08Material) []c08Step
 		closeEarly             bool
+		window                 int // receiver's message-key window (0 = default 100)
 	}
 	all := func(s int, mat *c08Material) int { return len(mat.senders[s].msgs) }
 	scens := []scen{
-		{"msgs-then-announce", 1, 0, 2, func(m *c08Material) []c08Step { return []c08Step{{"msgs", 0, all(0, m)}, {"meta", 0, 0}} }, false},
+		{"msgs-then-announce", 1, 0, 2, func(m *c08Material) []c08Step { return []c08Step{{"msgs", 0, all(0, m)}, {"meta", 0, 0}} }, false, 0},
 		{"announce-then-msgs-singly", 1, 0, 3, func(m *c08Material) []c08Step {
 			return []c08Step{{"meta", 0, 0}, {"msgs", 0, 1}, {"msgs", 0, 2}, {"msgs", 0, 3}}
-		}, false},
+		}, false, 0},
 		{"announce-between", 1, 1, 3, func(m *c08Material) []c08Step {
 			return []c08Step{{"msgs", 0, 2}, {"meta", 0, 0}, {"msgs", 0, 4}}
-		}, false},
-		{"single-msg-then-announce", 1, 0, 1, func(m *c08Material) []c08Step { return []c08Step{{"msgs", 0, 1}, {"meta", 0, 0}} }, false},
+		}, false, 0},
+		{"single-msg-then-announce", 1, 0, 1, func(m *c08Material) []c08Step { return []c08Step{{"msgs", 0, 1}, {"meta", 0, 0}} }, false, 0},
 		{"undecryptable-first-then-announce", 1, 1, 2, func(m *c08Material) []c08Step {
 			return []c08Step{{"msgs", 0, 3}, {"meta", 0, 0}}
-		}, false},
+		}, false, 0},
 		{"two-senders-interleaved", 2, 0, 2, func(m *c08Material) []c08Step {
 			return []c08Step{{"msgs", 0, 1}, {"msgs", 1, 2}, {"meta", 1, 0}, {"msgs", 0, 2}, {"meta", 0, 0}}
-		}, false},
+		}, false, 0},
+		// a backlog larger than the receiver's key window arrives as ONE replication batch (the store sees it newest first):
+		// the entries beyond the window cannot open at first and become openable as the older ones open
+		{"backlog-beyond-window-after-announce", 1, 0, 9, func(m *c08Material) []c08Step { return []c08Step{{"meta", 0, 0}, {"msgs", 0, all(0, m)}} }, false, 3},
+		{"backlog-beyond-window-before-announce", 1, 0, 9, func(m *c08Material) []c08Step { return []c08Step{{"msgs", 0, all(0, m)}, {"meta", 0, 0}} }, false, 3},
 	}
 	if verifkit.Thorough() {
 		scens = append(scens,
 			scen{"three-senders-batches", 3, 1, 4, func(m *c08Material) []c08Step {
 				return []c08Step{{"msgs", 2, 5}, {"meta", 0, 0}, {"msgs", 0, 3}, {"msgs", 1, 5}, {"meta", 2, 0}, {"msgs", 0, 5}, {"meta", 1, 0}}
-			}, false},
-			scen{"never-announced", 2, 0, 3, func(m *c08Material) []c08Step { return []c08Step{{"msgs", 0, 3}, {"msgs", 1, 3}, {"meta", 1, 0}} }, false},
-			scen{"close-early", 1, 0, 3, func(m *c08Material) []c08Step { return []c08Step{{"msgs", 0, 3}, {"meta", 0, 0}} }, true},
+			}, false, 0},
+			scen{"never-announced", 2, 0, 3, func(m *c08Material) []c08Step { return []c08Step{{"msgs", 0, 3}, {"msgs", 1, 3}, {"meta", 1, 0}} }, false, 0},
+			scen{"close-early", 1, 0, 3, func(m *c08Material) []c08Step { return []c08Step{{"msgs", 0, 3}, {"meta", 0, 0}} }, true, 0},
 		)
 	} else {
-		scens = append(scens, scen{"close-early", 1, 0, 3, func(m *c08Material) []c08Step { return []c08Step{{"msgs", 0, 3}, {"meta", 0, 0}} }, true})
+		scens = append(scens, scen{"close-early", 1, 0, 3, func(m *c08Material) []c08Step { return []c08Step{{"msgs", 0, 3}, {"meta", 0, 0}} }, true, 0})
 	}
 	realisedTotal, plannedTotal, runs := 0, 0, 0
 	instrumented := false
@@ -396,7 +401,7 @@ func TestVerifC08(t *testing.T) {
 			if install != nil {
 				install()
 			}
-			o, err := c08Run(ctx, w, account, mat, steps, sc.closeEarly)
+			o, err := c08Run(ctx, w, account, mat, steps, sc.closeEarly, sc.window)
 			runs++
 			if err != nil {
 				rep.Inconclusivef("%s under %s: %v", sc.name, plan, err)
@@ -434,6 +439,10 @@ func TestVerifC08(t *testing.T) {
 			}
 		}
 		maxPlans := verifkit.Pick(260, 1500)
+		if sc.window > 0 {
+			// the backlog scenarios are long (many re-injections): a thinner sample of pair plans in the quick tier
+			maxPlans = verifkit.Pick(50, 600)
+		}
 		if len(kept) > maxPlans {
 			k := (len(kept) + maxPlans - 1) / maxPlans
 			var thin []verifsched.Hold
